@@ -113,7 +113,9 @@ CmdFits(file, cmd) == ValidFor(file.ch, file.x, file.lr, file.sch, CmdAsD(cmd))
 Enabled(file, st, ev) ==
     CASE ev.a = "Setup"       -> ~st.exists /\ ev.ok /\ ValidFor(file.ch, file.x, file.lr, file.sch, ev.D)
       [] ev.a = "SetupFail"   -> ~st.exists
-      [] ev.a = "Configure"   -> st.exists /\ ValidFor(st.ch, st.x # None, st.lr, st.sch, ev.D) /\ ValidFor(file.ch, file.x, file.lr, file.sch, ev.D)
+      \* (`meson configure` re-reads an edited option file before it looks at -D: validity is judged on the file.  It must
+      \* not depend on whether an earlier no-op configure rewrote the stored configuration - the machine's one free choice)
+      [] ev.a = "Configure"   -> st.exists /\ ValidFor(file.ch, file.x, file.lr, file.sch, ev.D)
       [] ev.a = "ConfigureFail" -> st.exists
       \* a value outside the range the option file declares now: `meson configure` re-reads an edited option file
       \* before it looks at -D, so the value must be rejected
